@@ -246,8 +246,9 @@ example : readEncoding [0x80, 2, 65, 66, 1, 97, 0, 34] 0 [0, 34, 35]
 /-! ## default and nominal width (defect #19, repaired in cff/write.go) -/
 
 /-- Whatever the glyph widths are (integral or fractional 16.16 values), the default and the
-nominal width chosen by the repaired `selectWidths` are integers.  (`none` for the nominal
-width: no glyph differs from the default width, and no charstring refers to it.) -/
+nominal width chosen by the repaired `selectWidths` are integers.  (When no glyph differs from
+the default width the nominal width is 0; it used to be +Inf, stored through the
+implementation-defined conversion `int32(+Inf)` = −2147483648 on amd64.) -/
 theorem C13_widths_integral (ws : List Int) :
     fxIntegral (selectWidths ws).1 = true ∧ ∀ v, (selectWidths ws).2 = some v → fxIntegral v = true :=
   selectWidths_integral ws
@@ -263,8 +264,33 @@ theorem C13_width_stored_exactly (w : Int) (h : fxIntegral w = true)
       truncFx w * fxOne = w :=
   ⟨dictStep_encodeInt _ hr rest, truncFx_exact w h⟩
 
+/-- `width_recovered`, end to end: for all glyph widths (16.16 values, integral or not, |w| ≤ 32767)
+and the default/nominal widths chosen by the repaired `selectWidths` — both integers, stored
+exactly in the private DICT (`C13_width_stored_exactly`) — every glyph either has the default
+width (its charstring then carries no width) or its charstring carries `w − nominalWidth`, which
+the Type 2 number encoder writes exactly (the model `T2Enc.encodeNumber` of property C04; by
+`C04_number_partial`/`C05_number_roundtrip` the interpreter reads the written code as the reported
+value), so that `nominalWidth + operand = w` exactly.  Before the second repair of `selectWidths`
+(nominal width kept within ±32767 of every width) this failed for widths like
+5,5,5,5,5,−32767,32767×4: nominal 9830, the glyph of width −32767 was read back as −22938. -/
+theorem C13_width_recovered (ws : List Int) (hw : ∀ w ∈ ws, w.natAbs ≤ 32767 * 65536) :
+    ∃ nom, (selectWidths ws).2 = some nom ∧ fxIntegral (selectWidths ws).1 = true ∧ fxIntegral nom = true ∧
+      ∀ w ∈ ws, w = (selectWidths ws).1 ∨ nom + (T2Enc.encodeNumber (w - nom) 16).1 = w := by
+  obtain ⟨nom, h1, h2⟩ := selectWidths_reach ws hw
+  obtain ⟨i1, i2⟩ := selectWidths_integral ws
+  refine ⟨nom, h1, i1, i2 nom h1, ?_⟩
+  intro w hwm
+  by_cases hd : w = (selectWidths ws).1
+  · exact Or.inl hd
+  · right
+    rw [encodeNumber_exact _ (h2 w hwm hd)]
+    omega
+
 -- 500.5, 500.5, 600 (the input of defect #19): default 600 (the only integral width), nominal 608
 example : selectWidths [32800768, 32800768, 39321600] = (39321600, some 39845888) := by decide
+-- 5 ×5, −32767, 32767 ×4: the nominal width is pulled to 0 so that −32767 stays within reach
+example : selectWidths ([5, 5, 5, 5, 5, -32767, 32767, 32767, 32767, 32767].map (· * 65536)) = (5 * 65536, some 0) := by
+  decide
 
 /-! ## the offset fixed-point loop of `(*Font).Write` -/
 
